@@ -108,7 +108,7 @@ def trace_selftest(ck, cfgtext):
     if got != want:
         raise vlib.InfraError("trace self-test: planted violations %s, trace spec reported %s" % (want, got))
     kinds = sorted({v["kind"] for v in want})
-    spec_kinds = sorted(set(re.findall(r'V\(n, "([A-Za-z.]+)"\)', open(os.path.join(vlib.SPEC, "TraceRenderPool.tla")).read())))
+    spec_kinds = sorted(set(re.findall(r'"((?:Harness|OneOwner|ExclusiveBuffer|NoCarryOver)\.[A-Za-z]+)"', open(os.path.join(vlib.SPEC, "TraceRenderPool.tla")).read())))
     if kinds != spec_kinds:
         raise vlib.InfraError("trace self-test does not cover every violation kind of the trace spec: %s vs %s" % (kinds, spec_kinds))
     ok = vlib.tlc("TraceRenderPool", "t.cfg", workers=1, timeout=300,
@@ -423,13 +423,14 @@ def main():
     ck.add_tlc(tr, "TraceRenderPool (pool events of the replays)")
     if min(rep["cnt"][k] for k in ("acquire", "existing", "flush", "release", "begin", "end", "get", "put")) < 50:
         raise vlib.InfraError("too few pool events of some kind recorded: %s" % rep["cnt"])
-    bykind = {}
-    for v in rep["viol"]:
-        bykind[v["kind"]] = bykind.get(v["kind"], 0) + 1
+    bykind = {k: n for k, n in rep["vcnt"].items() if n}     # every violation is counted by kind ...
+    shown = {}
+    for v in rep["viol"]:                                    # ... the first 15 of each kind are listed with their line
         if v["kind"].startswith("Harness"):
             raise vlib.InfraError("inconsistent trace: %s at line %d" % (v["kind"], v["line"]))
-        if bykind[v["kind"]] > 3:
-            continue            # a few examples per kind; all are counted
+        shown[v["kind"]] = shown.get(v["kind"], 0) + 1
+        if shown[v["kind"]] > 3:
+            continue            # a few examples per kind
         e = evs[v["line"] - 1]
         ctx = evs[max(0, v["line"] - 8): v["line"] + 2]
         ck.violation(v["kind"], "pool hook trace of the real code leaves the pool protocol at event %s" % json.dumps(e),
